@@ -8,6 +8,7 @@ import (
 	"math"
 	"math/big"
 	"sort"
+	"strings"
 	"testing"
 
 	"github.com/makiuchi-d/gozxing"
@@ -293,6 +294,161 @@ func onBoundary(c VCase) bool {
 	return false
 }
 
+// BCase: one call of a best-match decoder (the symbol whose template scores lowest, if that
+// score is below the decoder's maximum average variance; otherwise not found).
+type BCase struct {
+	Decoder  string `json:"decoder"` // itf | code128 | upcean_l | upcean_l_and_g
+	Counters []int  `json:"counters"`
+	Offset   int    `json:"offset"`
+}
+
+// intScore: the contract in integers. score = dev/(plen*total) with dev = sum |c_i*plen - p_i*total|;
+// a run is out of tolerance when |c_i*plen - p_i*total| > maxInd*total. ok=false within 1e-6 of that boundary.
+func intScore(c, p []int, maxInd float64) (dev, den int64, inf, ok bool) {
+	var total, plen int64
+	for i := range c {
+		total += int64(c[i])
+		plen += int64(p[i])
+	}
+	if total < plen {
+		return 0, 1, true, true
+	}
+	lim := maxInd * float64(total)
+	for i := range c {
+		d := int64(c[i])*plen - int64(p[i])*total
+		if d < 0 {
+			d = -d
+		}
+		if math.Abs(float64(d)-lim) < 1e-6 {
+			return 0, 1, false, false
+		}
+		if float64(d) > lim {
+			inf = true
+		}
+		dev += d
+	}
+	return dev, plen * total, inf, true
+}
+
+type bestOutcome struct {
+	skip  string // non-empty: the case is too close to a decision boundary to call
+	found bool
+	index int
+	score float64
+}
+
+func bestRef(c []int, rows [][]int, maxAvg, maxInd float64) bestOutcome {
+	best, bestI := math.Inf(1), -1
+	second := math.Inf(1)
+	for i, p := range rows {
+		dev, den, inf, ok := intScore(c, p[:len(c)], maxInd)
+		if !ok {
+			return bestOutcome{skip: "individual_boundary"}
+		}
+		if inf {
+			continue
+		}
+		sc := float64(dev) / float64(den)
+		if sc < best {
+			second = best
+			best, bestI = sc, i
+		} else if sc < second {
+			second = sc
+		}
+	}
+	if bestI < 0 {
+		return bestOutcome{}
+	}
+	if math.Abs(best-maxAvg) < 1e-9 {
+		return bestOutcome{skip: "average_boundary"}
+	}
+	if best >= maxAvg {
+		return bestOutcome{}
+	}
+	if second-best < 1e-9 {
+		return bestOutcome{skip: "tie"}
+	}
+	return bestOutcome{found: true, index: bestI, score: best}
+}
+
+func bestTable(dec string) (rows [][]int, lim [2]float64, n int) {
+	pt := oned.VerifPatternTables()
+	ls := oned.VerifBestMatchLimits()
+	switch dec {
+	case "itf":
+		return pt["itf"], ls["itf"], 5
+	case "code128":
+		return pt["code128"], ls["code128"], 6
+	case "upcean_l":
+		return pt["upcean_l"], ls["upcean"], 4
+	default:
+		return pt["upcean_l_and_g"], ls["upcean"], 4
+	}
+}
+
+func checkBest(raw json.RawMessage) error {
+	var c BCase
+	if err := json.Unmarshal(raw, &c); err != nil {
+		return fmt.Errorf("hx: %v", err)
+	}
+	rows, lim, n := bestTable(c.Decoder)
+	if len(c.Counters) != n {
+		return fmt.Errorf("hx: %s takes %d counters", c.Decoder, n)
+	}
+	for _, v := range c.Counters {
+		if v < 1 {
+			return fmt.Errorf("hx: runs are at least one pixel")
+		}
+	}
+	want := bestRef(c.Counters, rows, lim[0], lim[1])
+	if want.skip != "" {
+		return nil
+	}
+	var got int
+	var err error
+	if c.Decoder == "itf" {
+		got, err = oned.VerifITFDecodeDigit(append([]int(nil), c.Counters...))
+		want.index %= 10
+	} else {
+		// a row whose runs from Offset are exactly the counters, followed by one more run
+		var sb strings.Builder
+		sb.WriteString(strings.Repeat("0", c.Offset))
+		col := byte('1')
+		for _, v := range c.Counters {
+			sb.WriteString(strings.Repeat(string(col), v))
+			col ^= 1
+		}
+		sb.WriteString(strings.Repeat(string(col), 3))
+		row := rowOf(sb.String())
+		cnt := make([]int, n)
+		for i := range cnt {
+			cnt[i] = 77 // dirty: the decoder records the runs itself
+		}
+		if c.Decoder == "code128" {
+			got, err = oned.VerifCode128DecodeCode(row, cnt, c.Offset)
+		} else {
+			got, err = oned.VerifUPCEANDecodeDigit(row, cnt, c.Offset, rows)
+		}
+	}
+	desc := fmt.Sprintf("%s best-match decoder on runs %v (limits avg %v, individual %v)", c.Decoder, c.Counters, lim[0], lim[1])
+	if !want.found {
+		if err == nil {
+			return fmt.Errorf("decoded %d although no template scores below the maximum average variance [%s]", got, desc)
+		}
+		if !isNotFound(err) {
+			return fmt.Errorf("error is not NotFound: %v [%s]", err, desc)
+		}
+		return nil
+	}
+	if err != nil {
+		return fmt.Errorf("not found although template %d scores %.6f, the unique lowest and below the limit: %v [%s]", want.index, want.score, err, desc)
+	}
+	if got != want.index {
+		return fmt.Errorf("decoded %d, the lowest-scoring template is %d (score %.6f) [%s]", got, want.index, want.score, desc)
+	}
+	return nil
+}
+
 type table struct {
 	name string
 	rows [][]int
@@ -319,6 +475,7 @@ func TestCheck(t *testing.T) {
 	hx.Main(t, "C20", func(c *hx.Ctx) {
 		c.Register("record", checkRecord)
 		c.Register("variance", checkVariance)
+		c.Register("best", checkBest)
 	}, func(c *hx.Ctx) {
 		// (1) RecordPattern forward / reverse, rapid rows
 		rprop := func(rev bool, sub string) func(t *rapid.T) {
@@ -468,5 +625,86 @@ func TestCheck(t *testing.T) {
 			}
 		}
 		c.Rapid("variance_random", c.N(20000, 200000), vprop)
+
+		// (4) best-match decoders built on the score: every small run vector, then rapid
+		noteBest := func(sub string, cs BCase) {
+			rows, lim, _ := bestTable(cs.Decoder)
+			o := bestRef(cs.Counters, rows, lim[0], lim[1])
+			cl, nt := cs.Decoder+";no_template_close_enough", true
+			switch {
+			case o.skip != "":
+				cl, nt = cs.Decoder+";skipped_"+o.skip, false
+			case o.found && o.score == 0:
+				cl, nt = cs.Decoder+";exact_multiple", false
+			case o.found && cs.Decoder == "itf" && o.index >= 10:
+				cl = cs.Decoder + ";distorted;3x_wide_template"
+			case o.found:
+				cl = cs.Decoder + ";distorted"
+			}
+			raw, _ := json.Marshal(cs)
+			c.Note(sub, cl, nt, hx.Hash(raw), func() any { return cs })
+		}
+		bidx := 0
+		for _, d := range []struct {
+			dec string
+			max int
+		}{{"itf", c.N(6, 9)}, {"upcean_l", c.N(8, 12)}, {"upcean_l_and_g", c.N(8, 12)}, {"code128", c.N(3, 5)}} {
+			_, _, n := bestTable(d.dec)
+			cnt := make([]int, n)
+			for i := range cnt {
+				cnt[i] = 1
+			}
+			for {
+				bidx++
+				if c.Mine(bidx) {
+					cs := BCase{Decoder: d.dec, Counters: append([]int(nil), cnt...), Offset: bidx % 3}
+					noteBest("best_match_small_exhaustive", cs)
+					if !c.Enum("best_match_small_exhaustive", "best", cs, nil) {
+						break
+					}
+				}
+				i := 0
+				for ; i < n; i++ {
+					cnt[i]++
+					if cnt[i] <= d.max {
+						break
+					}
+					cnt[i] = 1
+				}
+				if i == n {
+					break
+				}
+			}
+		}
+		c.SetExhaustive("best_match_small_exhaustive", true)
+		c.Rapid("best_match_random", c.N(6000, 100000), func(t *rapid.T) {
+			dec := rapid.SampledFrom([]string{"itf", "itf", "code128", "upcean_l", "upcean_l_and_g"}).Draw(t, "decoder")
+			rows, _, n := bestTable(dec)
+			pat := rows[rapid.IntRange(0, len(rows)-1).Draw(t, "template")]
+			k := rapid.IntRange(1, 8).Draw(t, "scale")
+			cnt := make([]int, n)
+			mode := rapid.IntRange(0, 2).Draw(t, "mode")
+			for i := range cnt {
+				cnt[i] = k * pat[i]
+				switch mode {
+				case 0:
+					if rapid.IntRange(0, 2).Draw(t, "touch") == 0 {
+						cnt[i] += rapid.IntRange(-k, k).Draw(t, "jit")
+					}
+				case 1:
+					cnt[i] += rapid.IntRange(-(k+1)/2, (k+1)/2).Draw(t, "jit2")
+				default:
+					cnt[i] = rapid.IntRange(1, 4*k).Draw(t, "free")
+				}
+				if cnt[i] < 1 {
+					cnt[i] = 1
+				}
+			}
+			cs := BCase{Decoder: dec, Counters: cnt, Offset: rapid.IntRange(0, 40).Draw(t, "offset")}
+			noteBest("best_match_random", cs)
+			if err := c.Eval("best", cs); err != nil {
+				t.Fatalf("%v", err)
+			}
+		})
 	})
 }
